@@ -65,7 +65,14 @@ def asReq (j : Json) : Option Req :=
     let im : Option (Option Nat) := if getBool j "if_match_present" then
         some (match j.getObjVal? "if_match" with | .ok v => (match v.getNat? with | .ok n => some n | _ => none) | _ => none)
       else none
-    some (.delete p im)
+    let imc : Option (List (String × Nat) × List (String × String)) := match j.getObjVal? "if_match" with
+      | .ok v => (match v.getObjVal? "items" with
+          | .ok _ => some ((getArr v "items").map (fun x => match x with
+                | Json.arr a => ((a.getD 0 Json.null).getStr?.toOption.getD "", (a.getD 1 Json.null).getNat?.toOption.getD 0)
+                | _ => ("", 0)), getPairs v "props")
+          | _ => none)
+      | _ => none
+    some (.delete p im imc)
   | "MOVE" => some (.move p (getSPath j "dest") (getBool j "overwrite"))
   | "PROPPATCH" => some (.proppatch p (getPairs j "set") ((getArr j "remove").map (fun x => x.getStr?.toOption.getD ""))
                           (getBool j "sets_type") (getBool j "bad_body"))
